@@ -18,10 +18,10 @@ EXPLANATION = (
     "(L-window, L-ring); checked_/unbounded_ shifts are total. R2: the only length-changing operations on "
     "ServerMutateTicks.ticks are balanced pop_back/push_front pairs, clear followed by resize(64) and "
     "construction from a 64-element array. R3: PartialOrd delegates to the wrapping Ord::cmp, tick arithmetic "
-    "cannot overflow-panic, the window code never compares raw counters. R4: MutateTickReceived is sent "
+    "cannot overflow-panic, the window code never compares raw counters; the body of RepliconTick::cmp compares the wrapping difference of the two counters with constants and never the counters with each other. R4: MutateTickReceived is sent "
     "exactly where ServerMutateTicks::confirm returned true, once per applied mutate message, with that "
     "message's own tick and count; tracking flag agreement between server writer and client reader.")
-NOT_DECIDED = "equivalence of the masks/ring with a set model over all confirmation sequences; that RepliconTick::cmp orders by wrapping distance; exactly-once under loss patterns"
+NOT_DECIDED = "equivalence of the masks/ring with a set model over all confirmation sequences; exactly-once under loss patterns"
 TRUSTED_BASE = ["VecDeque/iterator contracts of std", "checked_shl/unbounded_shl are total"]
 
 WINDOW_TYPES = ("bevy_replicon::client::confirm_history::ConfirmHistory",
@@ -351,6 +351,42 @@ def r3_wrapping_order(ctx):
             names = sorted(i.rsplit("::", 1)[-1] for i in imp["items"])
             ctx.check(names == ["partial_cmp"], "partial_ord/only-partial_cmp", imp.get("span", ""),
                       "PartialOrd impl overrides %s: comparisons could disagree with cmp" % names)
+    # the order itself is a function of the *wrapping difference* of the two counters: a comparison of the counters themselves (as
+    # unsigned or, cast, as signed numbers) is only circular around one point of the range and breaks half a range away from it
+    if oc:
+        cb = oc[0]
+        ctr = tracer(cb)
+        diffs = []
+        for bb, t in cb.calls():
+            m = callee_decl(t).rsplit("::", 1)[-1]
+            if m in ("wrapping_sub", "overflowing_sub", "wrapping_add") and len(t.get("args", [])) == 2:
+                roots = [set(x.data for x in deep_origins(cb, a_) if x.kind == "param") for a_ in t["args"]]
+                if roots[0] and roots[1] and roots[0] != roots[1] and (roots[0] | roots[1]) == {1, 2}:
+                    diffs.append(bb)
+        ctx.check(bool(diffs), "cmp/wrapping-difference", site_of(cb), "RepliconTick::cmp does not compute the wrapping difference of the two ticks")
+        raw = []
+        for bl in cb.blocks:
+            if bl.idx not in cb.reach:
+                continue
+            conds = []
+            if bl.term["t"] == "switch":
+                c = switch_cond(cb, bl.idx)
+                if c["kind"] == "cmp":
+                    conds.append((c["rel"], c["a"], c["b"], bl.idx))
+            if bl.term["t"] == "call" and callee_decl(bl.term).rsplit("::", 1)[-1] in ("cmp", "partial_cmp", "lt", "le", "gt", "ge", "max", "min") and len(bl.term.get("args", [])) == 2 \
+                    and not callee_name(bl.term).startswith("<" + TICK):
+                conds.append((callee_decl(bl.term).rsplit("::", 1)[-1], bl.term["args"][0], bl.term["args"][1], bl.idx))
+            for (rel, a_, b_, where) in conds:
+                if rel in ("==", "!="):
+                    continue
+                ra = set(x.data for x in deep_origins(cb, a_) if x.kind == "param")
+                rb = set(x.data for x in deep_origins(cb, b_) if x.kind == "param")
+                via_diff = any(x.kind == "call" and x.data in diffs for x in deep_origins(cb, a_) | deep_origins(cb, b_))
+                if ra and rb and ra != rb and not via_diff:
+                    raw.append((rel, where))
+        ctx.check(not raw, "cmp/no-direct-comparison-of-counters", site_of(cb, raw[0][1]) if raw else site_of(cb),
+                  "RepliconTick::cmp orders the two counters by comparing them directly (%s), not their wrapping difference: the order is wrong for ticks on opposite sides "
+                  "of the point where that comparison jumps (0 / 2^31), although they are less than half the range apart" % [r for r, _ in raw])
     # arithmetic on the raw counter cannot overflow-panic
     n = 0
     for p, fb in F.fns.items():
